@@ -27,6 +27,7 @@ package cache
 //@ iface policy.Admit
 //@   names item
 //@   requires [C15:admit-untracked-item] item != nil && !(item in pset(this))
+//@   requires [C15:admit-new-key] forall it *cacheItem :: it in pset(this) ==> it.key != item.key
 //@   modifies pset(this), pcount(this), all cacheItem.parent, all lru, all slru, all slruItem, all tinyLFU, all lfu
 //@   ensures pset(this) == upd(old(pset(this)), item, true)
 //@   ensures pcount(this) == old(pcount(this)) + 1
@@ -67,12 +68,12 @@ package cache
 // ---- representation invariant of the cache, under its lock ----
 //@ spec fn cinv(c *cache) bool = c.byKey != nil && c.size == len(c.byKey) && c.size == pcount(c.policy) && 0 <= c.size && c.size <= pcap(c.policy) && (forall k K :: k in c.byKey ==> c.byKey[k] != nil && c.byKey[k].key == k && c.byKey[k] in pset(c.policy)) && (forall it *cacheItem :: it in pset(c.policy) ==> it != nil && valid(it) && it.key in c.byKey && c.byKey[it.key] == it)
 //@ spec fn chanok(c *cache) bool = c.isSync || (c.events != nil && !chclosed(c.events))
-//@ spec fn notes(c *cache) int = if c.isSync then cbn(c.onEvictCallback) else sent(c.events)
+//@ spec fn notes(c *cache) int = if c.isSync then cbn(c.onEvictCallback) else chsent(c.events)
 
 //@ monitor (*cache).mux
 //@   facet C15
 //@   guards byKey, size, closing
-//@   havocs this.events, pset(this.policy), pcount(this.policy), all cacheItem.value, all cacheItem.expiration, all cacheItem.parent, sent(this.events), cbn(this.onEvictCallback), cbk(this.onEvictCallback), cbv(this.onEvictCallback)
+//@   havocs this.events, pset(this.policy), pcount(this.policy), all cacheItem.value, all cacheItem.expiration, all cacheItem.parent, chsent(this.events), cbn(this.onEvictCallback), cbk(this.onEvictCallback), cbv(this.onEvictCallback)
 //@   invariant [wired] this.policy != nil && this.clock != nil && this.onEvictCallback != nil
 //@   invariant [entries-and-policy-in-bijection-size-bounded] !this.closing ==> cinv(this) && chanok(this) && pcap(this.policy) >= 1
 //@ immutable (cache).policy, (cache).clock, (cache).expiry, (cache).onEvictCallback, (cache).isSync, (cacheItem).key
@@ -146,7 +147,7 @@ package cache
 //@   ensures [lock-released] c.mux == 0
 //@   ensures [closed] c.closing
 //@   ensures [close-notifies-every-entry-once-sync] !old(c.closing) && c.isSync ==> cbn(c.onEvictCallback) == old(cbn(c.onEvictCallback)) + old(c.size)
-//@   ensures [close-queues-every-entry-once-then-stops-async] !old(c.closing) && !c.isSync ==> sent(old(c.events)) == old(sent(c.events)) + old(c.size) + 1 && lastsent(old(c.events)).event == 1 && chclosed(old(c.events))
+//@   ensures [close-queues-every-entry-once-then-stops-async] !old(c.closing) && !c.isSync ==> chsent(old(c.events)) == old(chsent(c.events)) + old(c.size) + 1 && lastsent(old(c.events)).event == 1 && chclosed(old(c.events))
 //@   ensures [second-close-does-nothing] old(c.closing) ==> notes(c) == old(notes(c))
 
 
@@ -158,8 +159,8 @@ package cache
 //@   safety C15
 //@   opt no-frame
 //@   requires c != nil && c.events != nil && c.onEvictCallback != nil
-//@   loop 1 invariant [C15:each-evict-event-delivered-once] cbn(c.onEvictCallback) - old(cbn(c.onEvictCallback)) == recvd(c.events) - old(recvd(c.events)) && (recvd(c.events) > old(recvd(c.events)) ==> lastrecv(c.events).event == 0 && cbk(c.onEvictCallback) == lastrecv(c.events).item.key && cbv(c.onEvictCallback) == lastrecv(c.events).item.value)
-//@   ensures [one-callback-per-evict-event-received] cbn(c.onEvictCallback) - old(cbn(c.onEvictCallback)) == recvd(c.events) - old(recvd(c.events)) || (cbn(c.onEvictCallback) - old(cbn(c.onEvictCallback)) == recvd(c.events) - old(recvd(c.events)) - 1 && lastrecv(c.events).event == 1)
+//@   loop 1 invariant [C15:each-evict-event-delivered-once] cbn(c.onEvictCallback) - old(cbn(c.onEvictCallback)) == chrecvd(c.events) - old(chrecvd(c.events)) && (chrecvd(c.events) > old(chrecvd(c.events)) ==> lastrecv(c.events).event == 0 && cbk(c.onEvictCallback) == lastrecv(c.events).item.key && cbv(c.onEvictCallback) == lastrecv(c.events).item.value)
+//@   ensures [one-callback-per-evict-event-received] cbn(c.onEvictCallback) - old(cbn(c.onEvictCallback)) == chrecvd(c.events) - old(chrecvd(c.events)) || (cbn(c.onEvictCallback) - old(cbn(c.onEvictCallback)) == chrecvd(c.events) - old(chrecvd(c.events)) - 1 && lastrecv(c.events).event == 1)
 
 //@ func (*cache).GetOrPanic
 //@   facet C15
@@ -175,3 +176,205 @@ package cache
 //@   opt allow-go
 //@   requires b != nil && b.policy != nil && b.clock != nil && b.evictFunc != nil && b.capacity >= 1
 //@   ensures [built-cache-satisfies-its-invariant] result != nil && istype(result, *cache) && !dyn(result, *cache).closing && cinv(dyn(result, *cache)) && chanok(dyn(result, *cache)) && dyn(result, *cache).mux == 0 && pcap(dyn(result, *cache).policy) == b.capacity && dyn(result, *cache).size == 0
+
+// ================= level 2: the policies refine the policy contract =================
+// Each policy's view of pset / pcount / pcap is defined by its own state (abstraction function); its representation
+// invariant is established by Init and kept by every method. The cache reaches a policy only through the interface,
+// under its lock, and never writes cacheItem.parent or list internals itself.
+
+// ---- LRU: one list, most recently used first ----
+//@ ghost define pset(this *lru) = setof it *cacheItem :: it != nil && valid(it) && this.evictList != nil && it.parent != nil && elist(it.parent) == this.evictList && istype(it.parent.Value, *cacheItem) && dyn(it.parent.Value, *cacheItem) == it
+//@ ghost define pcount(this *lru) = llen(this.evictList)
+//@ ghost define pcap(this *lru) = this.cap
+//@ spec fn lruinv(c *lru) bool = c.evictList != nil && llen(c.evictList) >= 0 && (forall e *list.Element :: elist(e) == c.evictList ==> e != nil && valid(e) && istype(e.Value, *cacheItem) && dyn(e.Value, *cacheItem) != nil && valid(dyn(e.Value, *cacheItem)) && dyn(e.Value, *cacheItem).parent == e)
+//@ impl policy by *lru separately
+
+//@ func (*lru).Init
+//@   facet C15
+//@   safety C15
+//@   requires c != nil
+//@   modifies c.cap, c.evictList
+//@   ensures lruinv(c) && c.cap == capacity && llen(c.evictList) == 0 && fresh(c.evictList)
+//@   ensures forall e ref :: elist(e) != c.evictList
+
+//@ func (*lru).Capacity
+//@   facet C15
+//@   safety C15
+//@   requires c != nil
+//@   ensures result == c.cap
+
+//@ func (*lru).len
+//@   facet C15
+//@   safety C15
+//@   requires c != nil && lruinv(c)
+//@   ensures result == llen(c.evictList)
+
+//@ func (*lru).Admit
+//@   facet C15
+//@   safety C15
+//@   requires c != nil && lruinv(c) && item != nil && !(item in pset(c))
+//@   modifies item.parent, llen(c.evictList), elist(new(item.parent)), erank(new(item.parent))
+//@   ensures lruinv(c) && fresh(item.parent)
+//@   ensures pset(c) == upd(old(pset(c)), item, true) && llen(c.evictList) == old(llen(c.evictList)) + 1
+//@   ensures [C15:lru-admitted-item-is-most-recent] forall it *cacheItem :: it in pset(c) && it != item ==> erank(item.parent) < erank(it.parent)
+
+//@ func (*lru).Access
+//@   facet C15
+//@   safety C15
+//@   requires c != nil && lruinv(c) && item != nil && item in pset(c)
+//@   modifies erank(item.parent)
+//@   ensures lruinv(c) && pset(c) == old(pset(c))
+//@   ensures [C15:lru-accessed-item-is-most-recent] forall it *cacheItem :: it in pset(c) && it != item ==> erank(item.parent) < erank(it.parent)
+
+//@ func (*lru).Remove
+//@   facet C15
+//@   safety C15
+//@   requires c != nil && lruinv(c) && item != nil && item in pset(c)
+//@   modifies elist(item.parent), llen(c.evictList)
+//@   ensures lruinv(c) && elist(item.parent) == nil
+//@   ensures pset(c) == upd(old(pset(c)), item, false) && llen(c.evictList) == old(llen(c.evictList)) - 1
+
+//@ func (*lru).Victim
+//@   facet C15
+//@   safety C15
+//@   requires c != nil && lruinv(c)
+//@   ensures (result == nil) == (llen(c.evictList) == 0)
+//@   ensures result != nil ==> result in pset(c)
+//@   ensures [C15:lru-victim-is-least-recent] result != nil ==> (forall it *cacheItem :: it in pset(c) ==> erank(it.parent) <= erank(result.parent))
+
+//@ func (*lru).Close
+//@   facet C15
+//@   safety C15
+//@   requires c != nil
+//@   modifies c.cap, c.evictList
+
+// ---- SLRU: a probation list and a protected list; every element wraps its item in an slruItem ----
+//@ spec fn sitemOf(it *cacheItem) *slruItem = dyn(it.parent.Value, *slruItem)
+//@ spec fn inseg(it *cacheItem, l *list.List) bool = it != nil && valid(it) && l != nil && it.parent != nil && elist(it.parent) == l && istype(it.parent.Value, *slruItem) && sitemOf(it) != nil && sitemOf(it).cacheItem == it
+//@ ghost define pset(this *slru) = setof it *cacheItem :: inseg(it, this.probationList) || inseg(it, this.protectedList)
+//@ ghost define pcount(this *slru) = llen(this.probationList) + llen(this.protectedList)
+//@ ghost define pcap(this *slru) = this.cap
+//@ spec fn seginv(l *list.List, prot bool) bool = l != nil && llen(l) >= 0 && (forall e *list.Element :: elist(e) == l ==> e != nil && valid(e) && istype(e.Value, *slruItem) && dyn(e.Value, *slruItem) != nil && valid(dyn(e.Value, *slruItem)) && dyn(e.Value, *slruItem).protected == prot && dyn(e.Value, *slruItem).cacheItem != nil && valid(dyn(e.Value, *slruItem).cacheItem) && dyn(e.Value, *slruItem).cacheItem.parent == e)
+//@ spec fn slruinv(c *slru) bool = c.probationList != c.protectedList && seginv(c.probationList, false) && seginv(c.protectedList, true)
+//@ impl policy by *slru separately
+
+//@ func (*slru).Init
+//@   facet C15
+//@   safety C15
+//@   requires c != nil
+//@   modifies c.cap, c.protectedCapacity, c.protectedList, c.probationCapacity, c.probationList
+//@   ensures slruinv(c) && c.cap == capacity && llen(c.probationList) == 0 && llen(c.protectedList) == 0 && fresh(c.probationList) && fresh(c.protectedList)
+//@   ensures forall e ref :: elist(e) != c.probationList && elist(e) != c.protectedList
+
+//@ func (*slru).Capacity
+//@   facet C15
+//@   safety C15
+//@   requires c != nil
+//@   ensures result == c.cap
+
+//@ func (*slru).Admit
+//@   facet C15
+//@   safety C15
+//@   requires c != nil && slruinv(c) && item != nil && !(item in pset(c))
+//@   modifies item.parent, llen(c.probationList), elist(new(item.parent)), erank(new(item.parent))
+//@   ensures slruinv(c) && fresh(item.parent)
+//@   ensures pset(c) == upd(old(pset(c)), item, true) && llen(c.probationList) == old(llen(c.probationList)) + 1
+//@   ensures [C15:slru-admits-to-probation-most-recent] inseg(item, c.probationList) && (forall it *cacheItem :: inseg(it, c.probationList) && it != item ==> erank(item.parent) < erank(it.parent))
+
+//@ func (*slru).Access
+//@   facet C15
+//@   safety C15
+//@   requires c != nil && slruinv(c) && item != nil && item in pset(c)
+//@   modifies all cacheItem.parent, all slruItem.protected, elist, erank, llen(c.probationList), llen(c.protectedList)
+//@   ensures slruinv(c) && pset(c) == old(pset(c))
+//@   ensures llen(c.probationList) + llen(c.protectedList) == old(llen(c.probationList) + llen(c.protectedList))
+//@   ensures [slru-access-relinks-only-its-own-elements] forall e ref :: elist(e) != old(elist(e)) ==> (fresh(e) || old(elist(e)) == c.probationList || old(elist(e)) == c.protectedList) && (elist(e) == nil || elist(e) == c.probationList || elist(e) == c.protectedList)
+//@   ensures [slru-access-reorders-only-its-own-elements] forall e ref :: erank(e) != old(erank(e)) ==> fresh(e) || elist(e) == c.probationList || elist(e) == c.protectedList
+//@   ensures [slru-access-moves-only-its-own-items] forall it *cacheItem :: !old(it in pset(c)) ==> it.parent == old(it.parent)
+//@   ensures [C15:slru-access-promotes-to-protected-front] c.protectedCapacity >= 1 ==> inseg(item, c.protectedList) && (forall it *cacheItem :: inseg(it, c.protectedList) && it != item ==> erank(item.parent) < erank(it.parent))
+//@   ensures [C15:slru-protected-segment-stays-bounded] old(llen(c.protectedList)) <= c.protectedCapacity ==> llen(c.protectedList) <= c.protectedCapacity
+
+//@ func (*slru).Remove
+//@   facet C15
+//@   safety C15
+//@   requires c != nil && slruinv(c) && item != nil && item in pset(c)
+//@   modifies elist(item.parent), llen(c.probationList), llen(c.protectedList)
+//@   ensures slruinv(c) && elist(item.parent) == nil
+//@   ensures pset(c) == upd(old(pset(c)), item, false) && llen(c.probationList) + llen(c.protectedList) == old(llen(c.probationList) + llen(c.protectedList)) - 1
+
+//@ func (*slru).Victim
+//@   facet C15
+//@   safety C15
+//@   requires c != nil && slruinv(c)
+//@   ensures (result == nil) == (llen(c.probationList) + llen(c.protectedList) == 0)
+//@   ensures result != nil ==> result in pset(c)
+//@   ensures [C15:slru-victim-from-probation-first-least-recent] result != nil && llen(c.probationList) > 0 ==> inseg(result, c.probationList) && (forall it *cacheItem :: inseg(it, c.probationList) ==> erank(it.parent) <= erank(result.parent))
+//@   ensures [C15:slru-victim-from-protected-when-probation-empty] result != nil && llen(c.probationList) == 0 ==> inseg(result, c.protectedList) && (forall it *cacheItem :: inseg(it, c.protectedList) ==> erank(it.parent) <= erank(result.parent))
+
+//@ func (*slru).Close
+//@   facet C15
+//@   safety C15
+//@   requires c != nil
+//@   modifies c.cap, c.protectedList, c.probationList
+
+// ---- TinyLFU: an admission window (lru) in front of a main segment (slru); keys[k].parent says which one holds k ----
+//@ ghost define pset(this *tinyLFU) = setof it *cacheItem :: it in pset(this.lru) || it in pset(this.slru)
+//@ ghost define pcount(this *tinyLFU) = llen(this.lru.evictList) + llen(this.slru.probationList) + llen(this.slru.protectedList)
+//@ ghost define pcap(this *tinyLFU) = this.cap
+//@ spec fn tlfuinv(c *tinyLFU) bool = lruinv(c.lru) && slruinv(c.slru) && c.keys != nil && c.lru.cap >= 0 && c.lru.evictList != c.slru.probationList && c.lru.evictList != c.slru.protectedList && (forall it *cacheItem :: it in pset(c.lru) ==> it.key in c.keys && istype(c.keys[it.key].parent, *lru) && dyn(c.keys[it.key].parent, *lru) == c.lru) && (forall it *cacheItem :: it in pset(c.slru) ==> it.key in c.keys && istype(c.keys[it.key].parent, *slru) && dyn(c.keys[it.key].parent, *slru) == c.slru) && (forall a *cacheItem, b *cacheItem :: a in pset(c) && b in pset(c) && a != b ==> a.key != b.key)
+//@ impl policy by *tinyLFU separately
+
+//@ func (*tinyLFU).Init
+//@   facet C15
+//@   safety C15
+//@   opt no-frame
+//@   requires c != nil && capacity >= 0
+//@   ensures tlfuinv(c) && c.cap == capacity && pcount(c) == 0
+
+//@ func (*tinyLFU).Capacity
+//@   facet C15
+//@   safety C15
+//@   requires c != nil
+//@   ensures result == c.cap
+
+//@ func (*tinyLFU).Admit
+//@   facet C15
+//@   safety C15
+//@   opt no-frame
+//@   requires c != nil && tlfuinv(c) && item != nil && !(item in pset(c)) && (forall it *cacheItem :: it in pset(c) ==> it.key != item.key)
+//@   ensures [C15:tinylfu-every-tracked-item-has-its-list-on-file] tlfuinv(c)
+//@   ensures pset(c) == upd(old(pset(c)), item, true) && pcount(c) == old(pcount(c)) + 1
+
+//@ func (*tinyLFU).Access
+//@   facet C15
+//@   safety C15
+//@   opt no-frame
+//@   opt devirt policy:*lru|*slru
+//@   requires c != nil && tlfuinv(c) && item != nil && item in pset(c)
+//@   ensures [C15:tinylfu-every-tracked-item-has-its-list-on-file] tlfuinv(c)
+//@   ensures pset(c) == old(pset(c)) && pcount(c) == old(pcount(c))
+
+//@ func (*tinyLFU).Remove
+//@   facet C15
+//@   safety C15
+//@   opt no-frame
+//@   opt devirt policy:*lru|*slru
+//@   requires c != nil && tlfuinv(c) && item != nil && item in pset(c)
+//@   ensures [C15:tinylfu-every-tracked-item-has-its-list-on-file] tlfuinv(c)
+//@   ensures pset(c) == upd(old(pset(c)), item, false) && pcount(c) == old(pcount(c)) - 1
+
+//@ func (*tinyLFU).Victim
+//@   facet C15
+//@   safety C15
+//@   opt no-frame
+//@   requires c != nil && tlfuinv(c)
+//@   ensures [C15:tinylfu-every-tracked-item-has-its-list-on-file] tlfuinv(c)
+//@   ensures pset(c) == old(pset(c)) && pcount(c) == old(pcount(c))
+//@   ensures (result == nil) == (pcount(c) == 0)
+//@   ensures result != nil ==> result in pset(c)
+
+//@ func (*tinyLFU).Close
+//@   facet C15
+//@   safety C15
+//@   opt no-frame
+//@   requires c != nil
